@@ -9,7 +9,10 @@
 (* MC_Calibrate, exact dyadics on recorded behaviours).                    *)
 (***************************************************************************)
 EXTENDS Integers, Sequences, FiniteSets
-CONSTANTS Zero, Add(_, _), Mul(_, _), Leq(_, _), FromInt(_)
+CONSTANTS Zero, Add(_, _), Mul(_, _), Leq(_, _), FromInt(_),
+          Slack(_)     \* x |-> x (1 + eps): rates are compared as the doubles a user sees, i.e. a rate k/n that
+                       \* differs from min_rate only by the rounding of min_rate (0.9 vs 9/10) counts as equal;
+                       \* identity in the exact integer model
 
 Idx(D) == 1..Len(D)
 Pos(Y) == Cardinality({i \in 1..Len(Y) : Y[i] = 1})
@@ -36,8 +39,8 @@ FNum(c, b2) == Mul(Add(FromInt(1), b2), FromInt(c.tp))
 FDen(c, b2) == Add(Add(FNum(c, b2), Mul(b2, FromInt(c.fn))), FromInt(c.fp))
 
 Feasible(strategy, c, Y, minRate) ==
-  CASE strategy = "max_tpr" -> Leq(Mul(minRate, FromInt(Neg(Y))), FromInt(c.tn))     \* TNR >= min_rate
-    [] strategy = "max_tnr" -> Leq(Mul(minRate, FromInt(Pos(Y))), FromInt(c.tp))     \* TPR >= min_rate
+  CASE strategy = "max_tpr" -> Leq(Mul(minRate, FromInt(Neg(Y))), Slack(FromInt(c.tn)))     \* TNR >= min_rate
+    [] strategy = "max_tnr" -> Leq(Mul(minRate, FromInt(Pos(Y))), Slack(FromInt(c.tp)))     \* TPR >= min_rate
     [] OTHER -> TRUE
 
 (* a at least as good as b for the criterion *)
